@@ -244,6 +244,7 @@ class NoPanic:
             self.bounds[p] = B
             self.pre[p] = pre
             self.cursor_model(fn, B)
+            self.halving_loops(fn, B)
             if any(q == p for q, bb in P.callees(fn)):
                 self.recursive_pre(fn, B)
         # closures that only spell out the panic message of an `unwrap_or_else` are covered by that call site
@@ -566,6 +567,158 @@ class NoPanic:
                 self.assert_site(fn, B, b, t)
             elif t["k"] == "call":
                 self.call_site(fn, B, b, t)
+
+    def halving_loops(self, fn, B):
+        """Loop-bound lemma.  A loop that is left only when an unsigned n is <= 1 and that, on every path through one iteration, replaces n by
+        n/2 (optionally after one n+1) runs at most 65 times (n < 2^64 and n' <= (n+1)/2 < n for n >= 2).  A counter that starts at a
+        constant and is incremented at most once per iteration is then bounded by that constant + 65, in and after the loop."""
+        from lib import arith_eval, NotArith
+        from values import Ev
+        P = self.P
+        int_locals = [l for l, loc in enumerate(fn.locals) if loc["ty"] in ("usize", "u64", "u32")]
+        if not int_locals or not fn.loops():
+            return
+        defs = fn.defs()
+        for L in fn.loops():
+            h, body = L["header"], L["body"]
+            cand_n = [l for l in int_locals if any(k == "whole" and b in body for (b, i, k) in defs.get(l, []))]
+            for n in cand_n:
+                if any(k != "whole" for (b, i, k) in defs.get(n, [])):
+                    continue
+                SYM = ("sym", "n")
+                evs = Ev(P, fn, overrides={n: SYM})
+                cls = {}
+                bad = False
+                grid = list(range(1, 14))
+                for (b, i, k) in defs[n]:
+                    if b not in body or b not in fn.reachable():
+                        continue
+                    t = evs.call_term(b) if i == "term" else evs.rvalue(fn.blocks[b].stmts[i]["rv"], (b, i))
+                    t = self.W.expand(t)
+                    try:
+                        vals = [arith_eval(t, {SYM: c}) for c in grid]
+                    except NotArith:
+                        bad = True
+                        break
+                    if vals == [c + 1 for c in grid]:
+                        cls[b] = "inc"
+                    elif vals == [c // 2 for c in grid]:
+                        cls[b] = "halve"
+                    elif vals == grid:
+                        pass
+                    else:
+                        bad = True
+                        break
+                if bad or "halve" not in cls.values():
+                    continue
+                # (a) the loop is left only where staying requires n >= 2
+                ef = flow.edge_facts(fn, evs)
+                div = fn.diverging()
+                oka = True
+                for (s0, d0) in L["exits"]:
+                    if d0 in div:
+                        continue
+                    stay = [x for x in fn.succ(s0) if x in body]
+                    if fn.blocks[s0].term["k"] != "switch" or not stay:
+                        oka = False
+                        break
+                    for x in stay:
+                        rels = [r for f in ef.get((s0, x), ()) for r in flow.relational(f)]
+                        if not any((r[0] == "Lt" and r[1] == ("int", 1) and r[2] == SYM) or (r[0] == "Le" and r[1] == ("int", 2) and r[2] == SYM) for r in rels):
+                            oka = False
+                if not oka or not [e for e in L["exits"] if e[1] not in div]:
+                    continue
+                # every non-diverging exit must test n as it is at that point of the iteration: require the test in a block that no def of n in
+                # this iteration precedes, i.e. exits come from blocks from which the defs are still ahead (checked by the path walk: state 0)
+                exit_srcs = {e[0] for e in L["exits"] if e[1] not in div}
+
+                def walk(defcls, accept, one_only):
+                    """all iteration paths h -> h: sequence of classified defs accepted by the automaton"""
+                    seen = set()
+                    stack = [(h, 0)]
+                    first = True
+                    while stack:
+                        b, st = stack.pop()
+                        if (b, st) in seen:
+                            continue
+                        seen.add((b, st))
+                        if b == h and not first:
+                            if not accept(st):
+                                return False
+                            continue
+                        first = False
+                        c = defcls.get(b)
+                        if b in exit_srcs and st != 0 and not one_only:
+                            return False
+                        if c == "inc":
+                            if st != 0:
+                                return False
+                            st = 1
+                        elif c == "halve":
+                            if st == 2:
+                                return False
+                            st = 2
+                        for x in fn.succ(b):
+                            if x in body:
+                                stack.append((x, st))
+                    return True
+
+                if not walk(cls, lambda st: st == 2, False):
+                    continue
+                BOUND = 65
+                # (c) counters
+                for c in int_locals:
+                    if c == n:
+                        continue
+                    ds = defs.get(c, [])
+                    if not ds or any(k != "whole" for (b, i, k) in ds):
+                        continue
+                    inside = [(b, i) for (b, i, k) in ds if b in body]
+                    outside = [(b, i) for (b, i, k) in ds if b not in body]
+                    if not inside or len(outside) != 1 or outside[0][1] == "term" or not fn.dominates(outside[0][0], h):
+                        continue
+                    rv0 = fn.blocks[outside[0][0]].stmts[outside[0][1]]["rv"]
+                    k0 = rv0["op"].get("c", {}).get("int") if rv0["k"] == "use" else None
+                    if not isinstance(k0, int) or isinstance(k0, bool):
+                        continue
+                    CS = ("sym", "c")
+                    evc = Ev(P, fn, overrides={c: CS})
+                    ccls = {}
+                    okc = True
+                    for (b, i) in inside:
+                        t = evc.rvalue(fn.blocks[b].stmts[i]["rv"], (b, i)) if i != "term" else None
+                        try:
+                            vals = [arith_eval(self.W.expand(t), {CS: v}) for v in grid] if t is not None else None
+                        except NotArith:
+                            vals = None
+                        if vals == [v + 1 for v in grid]:
+                            ccls[b] = "inc"
+                        elif vals == grid:
+                            pass
+                        else:
+                            okc = False
+                    if not okc or not ccls:
+                        continue
+                    if not walk(ccls, lambda st: True, True):
+                        continue
+                    # the counter's value at the loop header, as the engine names it
+                    lr = B.__dict__.setdefault("local_ranges", {})
+                    lr[c] = (k0, k0 + BOUND)
+                    for (b, i) in inside:
+                        if i != "term" and ccls.get(b) == "inc":
+                            rv = fn.blocks[b].stmts[i]["rv"]
+                            o = (rv["op"].get("mv") or rv["op"].get("cp")) if rv["k"] == "use" else None
+                            if o and o.get("p") and len(o["p"]) == 1 and isinstance(o["p"][0], dict) and o["p"][0].get("f") == 0:
+                                lr[(o["l"], "0")] = (k0, k0 + BOUND)     # `c = move (tmp.0)` with tmp = AddWithOverflow(c, 1)
+                    ht = B.ev.local(c, (h, 0))
+                    if isinstance(ht, tuple) and ht and ht[0] == "phi":
+                        B.pre[ht] = (k0, k0 + BOUND)
+                        # the engine cuts the cycle of a loop-carried value with a placeholder: the inner phi is the same counter one visit earlier
+                        for x in values.subterms(ht):
+                            if isinstance(x, tuple) and x and x[0] == "phi" and ("int", k0) in x[1] and values.contains(x, lambda y: isinstance(y, tuple) and y and y[0] == "loopvar"):
+                                B.pre[x] = (k0, k0 + BOUND)
+                        self.ctx.extra.setdefault("loop_bounds", []).append("%s: local %s in [%d, %d] (halving loop on %s)" % (
+                            fn.path.split("::")[-1], fn.locals[c].get("name") or c, k0, k0 + BOUND, fn.locals[n].get("name") or n))
 
     def same_assert_before(self, fn, B, b, t, kind, ops):
         """A dominating assert of the same kind on the same operand values: it did not fail on the way here, so this one cannot (terms are
